@@ -152,6 +152,35 @@ theorem frame_change_moves_state_and_covariance :
      | _ => none) = some (.reg "MOD" 0, .reg "MOD" 0) := by
   decide +kernel
 
+/-- the `infos` entry of the `_data` dict of the state vector at `a` -/
+def infosEntry (h : Heap) (a : Nat) : Option Ref :=
+  match getSV h a with
+  | some s => lookup "infos" s.items
+  | none => none
+
+/-- `sv.infos` (read), `c = sv.copy()`: what the two `_data` dicts hold under `infos`, and whom the helper `c.infos` hands out is bound to,
+under either cache test -/
+def infosAfterCopy (t : InfosTest) : Option (Option Ref × Option Ref × Option Nat) :=
+  match getInfos t h1 2 with
+  | (h, some _) =>
+    match copySV h 2 with
+    | (h, .ok n) => some (infosEntry h 2, infosEntry h n, (getInfos t h n).2)
+    | _ => none
+  | _ => none
+
+/-- OPEN finding C15-copy-hands-over-infos-helper: `copy()` passes the helper object kept under `infos` (it has no `copy`) to the new
+object: the copy (cell 6) holds, under `infos`, the helper of the receiver — bound to the receiver (cell 2). Only because the getter's
+cache test is never true does `c.infos` ignore it and answer with a helper of its own (owner 6) -/
+theorem copy_hands_over_infos_entry :
+    infosAfterCopy .never = some (some (.infos 2 3), some (.infos 2 3), some 6) := by
+  decide +kernel
+
+/-- … with the test `"infos" not in self._data` the stale helper is what `c.infos` returns: period, kep, pericenter of the copy would be
+those of the original (owner 2) — the defect `infosTest_never` rules out -/
+theorem cached_infos_test_would_answer_with_the_original :
+    infosAfterCopy .inData = some (some (.infos 2 3), some (.infos 2 3), some 2) := by
+  decide +kernel
+
 /-! ### positive witnesses for the constructor / getter / failing-setter sites (each is a defect a maintainer could
 introduce there; the correspondence run compares exactly these situations with /repo) -/
 
